@@ -68,8 +68,9 @@ def auto_detect_output(prg: Iterable[AST]) -> list[Predicate]:
             if stm.name:  # `#show.` names no predicate
                 output.add(Predicate(stm.name, stm.arity))
         elif stm.ast_type == ASTType.ShowTerm:
-            for lit in stm.body:
-                output.update([p.pred for p in predicates(lit)])
+            for unpooled in stm.unpool():  # the atoms of p(1;2) are only visible after unpooling
+                for lit in unpooled.body:
+                    output.update([p.pred for p in predicates(lit)])
     if output:
         log.info(
             "Output detected. Consider using a postprocessor to format your output instead of rules and statements."
